@@ -105,6 +105,13 @@ def havoc(eng, path, v, name):
         return tuple(havoc(eng, path, x, f"{name}_{i}") for i, x in enumerate(v))
     if v is None:
         return None
+    if isinstance(v, Obj) and v.kind == "pregex":
+        from .specsym import new_pregex
+        ty = path.fields(v).get("_Pregex__type")
+        tname = getattr(ty, "name", None)
+        if tname is None:
+            raise Limitation(f"cannot havoc {name}: its inferred type is not determined")
+        return new_pregex(eng, path, name, tname, cls=v.cls if not isinstance(v.cls, str) else None)
     raise Limitation(f"cannot havoc loop variable {name} of value {v!r}")
 
 
